@@ -20,6 +20,11 @@ def mutants(data, rng, n, others=()):
             add(data[:k])
     for junk in (b'\x00', b'\xff', b'\r\n', b' ', data[:7], data):
         add(data + junk)
+    # amplification: a self-delimiting encoding repeated is a longer valid input for list-like formats
+    # (several TXT character-strings, several header lines, several records)
+    for k in (3, 20, 21, 40):
+        if L and L * k <= 4000:
+            add(data * k)
     for i in range(min(L, 12)):            # header region: length fields, types, versions
         for d in (1, -1, 0x80):
             b = bytearray(data)
